@@ -2051,6 +2051,12 @@ def M_ref_partial_eq(it, ctx, args, st):
     yield from it.call_trait(ctx.fr, A[2], 'std::cmp::PartialEq', ctx.callee.method, [], [a, b], st, targs=[B[2]])
 
 
+def M_from_iter(it, ctx, args, st):
+    """<C as FromIterator<T>>::from_iter(iter)  ==  iter.into_iter().collect::<C>()"""
+    ctx2 = type('C', (), {'gargs': [ctx.self_ty], 'fr': ctx.fr, 'callee': ctx.callee, 'self_ty': ctx.self_ty})()
+    yield from M_collect(it, ctx2, args, st)
+
+
 def M_from_identity(it, ctx, args, st):
     yield st, args[0]
 
@@ -2415,6 +2421,7 @@ MODELS = [
     (ITER + r'map::<.*>', M_adaptor('map')), (ITER + r'filter::<.*>', M_adaptor('filter')),
     (ITER + r'filter_map::<.*>', M_adaptor('filter_map')), (ITER + r'flat_map::<.*>', M_adaptor('flat_map')),
     (ITER + r'enumerate', M_adaptor('enumerate')), (ITER + r'rev', M_iter_rev),
+    (r'<.* as ' + P + r'iter::FromIterator<.*>>::from_iter::<.*>', M_from_iter),
     (ITER + r'collect::<.*>', M_collect), (ITER + r'count', M_count), (ITER + r'all::<.*>', M_all), (ITER + r'any::<.*>', M_any),
     (ITER + r'find::<.*>', M_find), (ITER + r'position::<.*>', M_position),
     (P + r'char::methods::<impl char>::encode_utf8', M_char_encode_utf8), (P + r'char::methods::<impl char>::len_utf8', M_char_len_utf8),
